@@ -202,7 +202,10 @@ C02_Build(kw, o) ==
   /\ ("password" \in DOMAIN kw /\ Netloc5(o) # <<>> /\ kw.password # None) =>
         (Ok(o.raw_password) /\ V(o.raw_password) # None /\ Meaning("password", FALSE, kw.password[1], V(o.raw_password)[1]))
   /\ ("path" \in DOMAIN kw /\ ~(Netloc5(o) # <<>> /\ Has(kw.path, DOT))) => Meaning("path", FALSE, kw.path, Path5(o))
-  /\ ("query_string" \in DOMAIN kw /\ "query" \notin DOMAIN kw) => Meaning("query", FALSE, kw.query_string, Query5(o))
+  \* query_string is what counts whenever no (or an empty) query argument is given
+  /\ ("query_string" \in DOMAIN kw /\ ("query" \notin DOMAIN kw \/ kw.query.form = "none" \/ (kw.query.form = "str" /\ kw.query.s = <<>>)
+                                        \/ (kw.query.form \notin {"str", "none"} /\ kw.query.pairs = <<>>)))
+        => Meaning("query", FALSE, kw.query_string, Query5(o))
   /\ ("fragment" \in DOMAIN kw) => Meaning("fragment", FALSE, kw.fragment, Frag5(o))
   /\ ("query" \in DOMAIN kw /\ kw.query.form \in {"mapping", "pairs", "tuplepairs", "multidict"} /\ AllStrPairs(kw.query)
         /\ kw.query.pairs # <<>>) => C02_PairsKept(StrPairs(kw.query), Query5(o))
@@ -301,7 +304,9 @@ C06_ReadBackBuild(kw, o) ==
   /\ ("path" \in DOMAIN kw /\ ~HasSurrogate(kw.path) /\ NoDotUnderAuthority(o, kw.path)) =>
         (Ok(o.path) /\ V(o.path) = (IF kw.path = <<>> /\ Netloc5(o) # <<>> THEN <<SLASH>> ELSE kw.path))
   /\ ("fragment" \in DOMAIN kw /\ ~HasSurrogate(kw.fragment)) => (Ok(o.fragment) /\ V(o.fragment) = kw.fragment)
+  \* (an EMPTY query argument supplies nothing to read back: build() then takes query_string, if any)
   /\ ("query" \in DOMAIN kw /\ kw.query.form \in {"mapping", "pairs", "tuplepairs", "multidict"} /\ AllStrPairs(kw.query)
+        /\ kw.query.pairs # <<>>
         /\ \A i \in 1..Len(kw.query.pairs) : ~HasSurrogate(kw.query.pairs[i][1]) /\ ~HasSurrogate(kw.query.pairs[i][2].s)) =>
         (Ok(o.query) /\ V(o.query) = StrPairs(kw.query))
 
